@@ -354,21 +354,31 @@ example : (sOf "aé ǅz").map toUpper = sOf "AÉ ǄZ" ∧ (sOf "AÉǅ").map toLo
 
 /-! ## an empty list counts as unset -/
 
-def empty_list_unset_statement : Prop :=
-  ∀ (x : Ext) (cfg : Cfg) (env : Env) (ifs w : Str),
-    ifsOf env = .ok ifs → env.get ['@'] = Var.ofList [] →
-    paramExp x cfg env { name := ['@'], exp := some (.defUnset, w) } = .ok (w, env)
+/-- `$@`, `$*`, `${a[@]}`, `${a[*]}` without elements count as unset for the test operators
+    (fixed by f7cc96f + 4040b4e for indexed lists, ed26a21 for associative arrays): `${@-w}` is the word … -/
+theorem empty_list_unset (x : Ext) (cfg : Cfg) (env : Env) (ifs w : Str)
+    (hifs : ifsOf env = .ok ifs) (hv : env.get ['@'] = Var.ofList []) :
+    paramExp x cfg env { name := ['@'], exp := some (.defUnset, w) } = .ok (w, env) := by
+  simp [paramExp, hifs, hv, effIdx, isAtStar, Idx.lit, sliceElems, overridingUnset, Sl.toList, joinWith,
+    bind, Except.bind, pure, Except.pure]
 
-/-- finding C21-empty-list-is-unset: `set --; ${@-d}` is empty -/
-theorem empty_list_unset_counterexample :
+/-- … `${@+w}` is nothing, and the same for an indexed array with `[@]`. -/
+theorem empty_list_unset_alt (x : Ext) (cfg : Cfg) (env : Env) (ifs w : Str)
+    (hifs : ifsOf env = .ok ifs) (hv : env.get ['@'] = Var.ofList []) :
+    paramExp x cfg env { name := ['@'], exp := some (.altUnset, w) } = .ok ([], env) := by
+  simp [paramExp, hifs, hv, effIdx, isAtStar, Idx.lit, sliceElems, overridingUnset, Sl.toList, joinWith,
+    bind, Except.bind, pure, Except.pure]
+
+theorem empty_array_unset (x : Ext) (cfg : Cfg) (env : Env) (name ifs w : Str)
+    (hifs : ifsOf env = .ok ifs) (hp : Plain name) (hv : env.get name = Var.ofList []) :
+    paramExp x cfg env { name := name, idx := .at, exp := some (.defUnset, w) } = .ok (w, env) := by
+  simp [paramExp, hifs, hv, effIdx, hp.1, hp.2, isAtStar, Idx.lit, sliceElems, overridingUnset, Sl.toList, joinWith,
+    bind, Except.bind, pure, Except.pure]
+
+/-- former finding C21-empty-list-is-unset: `set --; ${@-d}` is `d` -/
+theorem pinned_empty_list_unset :
     paramExp xLit {} [(['@'], Var.ofList [])] { name := ['@'], exp := some (.defUnset, ['d']) }
-      = .ok ([], [(['@'], Var.ofList [])]) := by decide
-
-theorem empty_list_unset_statement_false : ¬ empty_list_unset_statement := by
-  intro h
-  have := h xLit {} [(['@'], Var.ofList [])] (sOf " \t\n") ['d'] (by decide) (by decide)
-  rw [empty_list_unset_counterexample] at this
-  revert this; decide
+      = .ok (['d'], [(['@'], Var.ofList [])]) := by decide
 
 /-! ## a Go panic that is reachable -/
 
